@@ -554,7 +554,177 @@ def expm_task(task, tr):
         cm.discharge(tr, d, dom, goals, label, replay=replay, timeout=40.0, varnodes=V, sig_prefix=f'{kind}.p_t:')
 
 
+def batched_q_task(task, tr):
+    """q() with batched parameters: each sample's rate matrix is the documented matrix of that sample's parameters
+    (every subset of {rates/kappa, frequencies} batched)"""
+    from torchtree.evolution.substitution_model import nucleotide
+
+    _, kind, batched = task
+    label = f'batched Q {kind} batched={sorted(batched)}'
+    cls = {'HKY': nucleotide.HKY, 'GTR': nucleotide.GTR}[kind]
+    tr.fn(cls.q)
+    B = 2
+    with tracing() as t:
+        d = t.dag
+        m, dic = cm.build(model_json(kind, 4, None))
+        V = {}
+        pnames = {'HKY': {'kappa': 1, 'freqs': 4}, 'GTR': {'rates': 6, 'freqs': 4}}[kind]
+        per = {}
+        for key, n in pnames.items():
+            rows = []
+            for b in range(B if key in batched else 1):
+                base = [0.1, 0.2, 0.3, 0.4] if key == 'freqs' else [0.8 + 0.31 * i for i in range(n)]
+                st = new_vars(f'{key}@{b}', torch.tensor([v * (1 + 0.13 * b) for v in base], dtype=torch.float64))
+                rows.append(st)
+                for i in st._ids.tolist():
+                    V[d.args[i][0]] = i
+            per[key] = rows
+            if key in batched:
+                dic[key].tensor = from_ids(torch.stack([r._ids for r in rows]))
+            else:
+                dic[key].tensor = rows[0]
+        try:
+            Q = m.q()
+        except Exception as e:
+            tr.notes.append(f'{label}: q() raises ({type(e).__name__}) - accepted (fails loudly)')
+            tr.obligation(f'raises:{label}', nontrivial=False)
+            tr.regions += 1
+            return
+        tr.witness_runs += 1
+        tr.regions += 1
+        goals = []
+        if tuple(Q.shape) != (B, 4, 4):
+            goals.append((f'q() has one matrix per sample (shape {tuple(Q.shape)})', d.FALSE, [], f'{kind}.q:batched:shape'))
+        else:
+            for b in range(B):
+                Vb = {}
+                for key, n in pnames.items():
+                    row = per[key][b if key in batched else 0]
+                    for i in range(n):
+                        Vb[f'{key}[{i}]'] = int(row._ids[i])
+                pi = [Vb[f'freqs[{i}]'] for i in range(4)]
+                r = exchangeability(kind, None, 4, Vb, d)
+                Qi = Q._ids[b].tolist()
+                doc = []
+                for i in range(4):
+                    rs = 0
+                    for j in range(4):
+                        if i != j:
+                            e = d.mul(r(i, j), pi[j])
+                            rs = d.add(rs, e)
+                            doc.append(d.eq(Qi[i][j], e))
+                    doc.append(d.eq(Qi[i][i], d.neg(rs)))
+                goals.append((f'sample {b}: q()[{b}] == documented matrix of sample {b}\'s parameters', d.and_(*doc), [],
+                              f'{kind}.q:batched:mixes-samples'))
+
+        def replay(vals):
+            m2, dic2 = cm.build(model_json(kind, 4, None))
+            for key, n in pnames.items():
+                rows = []
+                for b in range(B if key in batched else 1):
+                    base = [0.1, 0.2, 0.3, 0.4] if key == 'freqs' else [0.8 + 0.31 * i for i in range(n)]
+                    rows.append([abs(vals.get(f'{key}@{b}[{i}]', base[i] * (1 + 0.13 * b))) + 1e-3 for i in range(n)])
+                dic2[key].tensor = torch.tensor(rows if key in batched else rows[0], dtype=torch.float64)
+            try:
+                Q2 = m2.q()
+            except Exception as e:
+                return False, f'raises {type(e).__name__} (accepted)'
+            if tuple(Q2.shape) != (B, 4, 4):
+                return True, f'q() has shape {tuple(Q2.shape)}'
+            for b in range(B):
+                m3, dic3 = cm.build(model_json(kind, 4, None))
+                for key in pnames:
+                    tns = dic2[key].tensor
+                    dic3[key].tensor = tns[b] if key in batched else tns
+                if not torch.allclose(Q2[b], m3.q().reshape(4, 4), rtol=1e-9, atol=1e-12):
+                    return True, f'sample {b}: batched q() differs from the rate matrix of that sample alone'
+            return False, 'agree'
+
+        cm.discharge(tr, d, [d.lt(0, i) for i in V.values()], goals, label, replay=replay, varnodes=V, defined=False,
+                     timeout=40, parallel=True)
+
+
+def stale_task(task, tr):
+    """p_t after a parameter update equals p_t of a freshly built model holding the same symbols (no stale
+    eigendecomposition / rate matrix), for every model incl. the 61-state codon model (a few entries)"""
+    _, kind, S, mapping, code = task
+    label = f'p_t after update {kind}'
+    with tracing() as t:
+        d = t.dag
+
+        def build_with(tag, seed):
+            m, dic = cm.build(model_json(kind, S, mapping, code or 'Universal'))
+            V_ = {}
+            symbolize_all(dic, d, V_, seed=seed)
+            return m, dic, V_
+
+        m, dic, V0 = build_with('a', 0)
+        tt = new_vars('t', torch.tensor([[0.37]], dtype=torch.float64))
+        try:
+            P0 = m.p_t(tt)
+            # update every parameter with fresh symbols
+            from torchtree.core.parameter import Parameter
+
+            new = {}
+            for key, p_ in dic.items():
+                if isinstance(p_, Parameter) and p_.tensor.is_floating_point():
+                    base = p_.tensor._v if isinstance(p_.tensor, SymTensor) else p_.tensor
+                    st = new_vars(f'{key}_new', (base * 1.17 + 0.01).clone())
+                    new[key] = st
+                    p_.tensor = st
+            P1 = m.p_t(tt)
+            m2, dic2 = cm.build(model_json(kind, S, mapping, code or 'Universal'))
+            for key, st in new.items():
+                dic2[key].tensor = from_ids(st._ids.clone())
+            P2 = m2.p_t(tt)
+        except Exception as e:
+            tr.violation(f'{kind}.p_t:update-raises', f'{label}: raised {type(e).__name__}: {e}', {'label': label})
+            return
+        tr.witness_runs += 1
+        tr.regions += 1
+        S_ = P1.shape[-1]
+        pick = [(i, j) for i in range(min(S_, 3)) for j in range(min(S_, 3))]
+        a = [int(P1._ids[0, 0, i, j]) for i, j in pick]
+        b = [int(P2._ids[0, 0, i, j]) for i, j in pick]
+        z = [int(P0._ids[0, 0, i, j]) for i, j in pick]
+        goals = [('p_t after updating every parameter == p_t of a freshly built model with the same parameters',
+                  d.and_(*[d.eq(x, y) for x, y in zip(a, b)]), [], f'{kind}.p_t:stale-after-update')]
+        V = {d.args[i][0]: i for i in d.topo(a + b) if d.ops[i] == 'var'}
+
+        def replay(vals):
+            m3, dic3 = cm.build(model_json(kind, S, mapping, code or 'Universal'))
+            from torchtree.core.parameter import Parameter as P_
+
+            tv = torch.tensor([[0.37]], dtype=torch.float64)
+            for key, p_ in dic3.items():
+                if isinstance(p_, P_) and p_.tensor.is_floating_point():
+                    p_.tensor = p_.tensor.to(torch.float64)
+            m3.p_t(tv)
+            for key, p_ in dic3.items():
+                if isinstance(p_, P_) and p_.tensor.is_floating_point():
+                    x = p_.tensor * 1.17 + 0.01
+                    p_.tensor = x / x.sum() if key in ('freqs',) else x
+            got = m3.p_t(tv)
+            m4, dic4 = cm.build(model_json(kind, S, mapping, code or 'Universal'))
+            for key, p_ in dic4.items():
+                if isinstance(p_, P_) and p_.tensor.is_floating_point():
+                    p_.tensor = dic3[key].tensor.clone()
+            want = m4.p_t(tv)
+            if not torch.allclose(got, want, rtol=1e-8, atol=1e-10):
+                return True, f'p_t after the update differs from a fresh model by {float((got - want).abs().max())}'
+            return False, 'agree'
+
+        cm.discharge(tr, d, [], goals, label, replay=replay, varnodes=V, defined=False, timeout=40, parallel=True)
+        # vacuity: the update changes p_t
+        if all(x == y for x, y in zip(a, z)):
+            tr.inconc(f'{label}: vacuity guard: the update did not change p_t')
+
+
 def run_task(task, tr):
+    if task[0] == 'bq':
+        return batched_q_task(task, tr)
+    if task[0] == 'stale':
+        return stale_task(task, tr)
     {'q': q_task, 'eigen': eigen_task, 'closed': closed_task, 'expm': expm_task}[task[0]](task, tr)
 
 
@@ -570,6 +740,11 @@ def tasks_for(tier):
           ('eigen', 'GeneralSymmetric', 3, [0, 1, 2]), ('eigen', 'Empirical', 3, None),
           ('closed', 'JC69', 4), ('closed', 'GeneralJC69', 2), ('closed', 'GeneralJC69', 3), ('closed', 'GeneralJC69', 5),
           ('expm', 'GeneralNonSymmetric', 3, [0, 1, 2, 3, 4, 5])]
+    for kind, names in (('HKY', ('kappa', 'freqs')), ('GTR', ('rates', 'freqs'))):
+        for sub in ((names[0],), (names[1],), names):
+            ts.append(('bq', kind, frozenset(sub)))
+    ts += [('stale', 'HKY', 4, None, None), ('stale', 'GTR', 4, None, None),
+           ('stale', 'GeneralSymmetric', 3, [0, 1, 2], None), ('stale', 'MG94', 61, None, 'Universal')]
     if tier == 'thorough':
         from torchtree.evolution.datatype import CodonDataType
 
